@@ -329,8 +329,10 @@ class Twin:
             failed_level = names.index(m.group(1)) if m.group(1) in names else 0
         saved = r.rc == 0 or failed_level is None
         if cmd == "sync":
-            ct = self.cs(self.T)
-            total = (cs1["blockmax"] if saved and cs1 else (ct["blockmax"] if ct else 0)) * BS
+            total = (cs1["blockmax"] if cs1 else 0) * BS
+            m = re.search(r"You miss (\d+) bytes", r.err)
+            if failed_level is not None and m:
+                total = sum(fs1[failed_level]) + int(m.group(1))      # what was asked = what was obtained + what is missing
         else:
             total = (cs0["blockmax"] if cs0 else 0) * BS
         for l in range(self.np):
@@ -354,12 +356,17 @@ class Twin:
                                 "step": len(self.steps), "seed": self.seed})
         return r
 
-    def sync(self, what, n=None, expect_fail=False):
-        rt = self.T.run("sync")
+    def sync(self, what, n=None):
+        """sync the split array, then its twin.  If the split array runs out of parity space the twin is NOT synced
+        (returns (result, None)): its allocation history must stay the one of the split array."""
         before = [self.rec_sizes(self.cs(self.A), l) for l in range(self.np)]
         ra = self.runA("sync", n=n)
         self.counts["sync"] += 1
         after = [self.rec_sizes(self.cs(self.A), l) for l in range(self.np)]
+        if ra.rc != 0 and "Failed to allocate all the required parity space" in ra.err:
+            self.steps.append("%s; sync -> rc %d (out of parity space) sizes %r" % (what, ra.rc, after))
+            return ra, None
+        rt = self.T.run("sync")
         self.steps.append("%s; sync -> rc %d (twin %d) sizes %r" % (what, ra.rc, rt.rc, after))
         for l in range(self.np):
             b = [x or 0 for x in before[l]]
@@ -370,10 +377,8 @@ class Twin:
                 self.counts["shrink"] += 1
             if sum(1 for x in a if x) != sum(1 for x in b if x):
                 self.counts["cross"] += 1
-        if rt.rc != 0:
-            self.problem("twin-sync-failed", what + ": " + rt.err[-300:])
-            return ra, rt
-        if ra.rc != 0:
+        if rt.rc != 0 or ra.rc != 0:
+            self.problem("sync-failed", "%s: rc %d, twin %d: %s" % (what, ra.rc, rt.rc, (ra.err if ra.rc else rt.err)[-300:]))
             return ra, rt
         self.compare(what)
         return ra, rt
@@ -417,13 +422,9 @@ class Twin:
             self.write(d, name, vals)
             added.append((d, name))
         ra, rt = self.sync("add %s" % ",".join("%d/%s" % x for x in added))
-        if ra.rc != 0 and rt.rc == 0:
+        if rt is None:
             # out of parity space on the split array: content not saved, files partly grown; undo the addition or add a split
             self.counts["oos"] += 1
-            self.pristine = False         # the twin did sync the additions: stripes without data now have another history
-            if "Failed to allocate all the required parity space" not in ra.err:
-                self.problem("sync-failed", ra.err[-400:])
-                return
             lv = [l for l in range(self.np) if self.A.conf.splits[l] < 8]
             if lv and rng.random() < 0.5:
                 for l in range(self.np):
@@ -432,13 +433,13 @@ class Twin:
                 self.A.write_conf()
                 self.counts["add"] += 1
                 ra, rt = self.sync("out of parity space: one more split per level %r" % self.A.conf.splits)
-                if ra.rc == 0:
+                if rt is not None:
                     return
             for d, name in added:
                 if os.path.exists(self.A.path(d, name)):
                     self.remove(d, name)
             ra, rt = self.sync("out of parity space: additions removed again")
-            if ra.rc != 0:
+            if rt is None:
                 self.problem("sync-failed-after-undo", ra.err[-400:])
 
     def shrink(self):
